@@ -548,7 +548,7 @@ func (g *gen) rawExpr(k kind, depth int, class string) string {
 		case 4:
 			if g.pct("inflect", 50) {
 				g.feat("inflection")
-				if g.pct("pathfor", 20) {
+				if g.pct("pathfor", 35) {
 					g.feat("path_for")
 					if g.pct("pathforstruct", 50) {
 						return []string{"pathFor(car)", "pathFor(car2)", "pathFor(page)", "pathFor(car)"}[g.intn("pathforwhich", 0, 3)]
@@ -885,6 +885,10 @@ func (g *gen) piece(depth int) {
 				return
 			}
 		}
+	}
+	if g.o.toleratedOnly && g.o.probes && g.nest > 0 && g.cur.name == "" && g.pct("toleratednested", 8) {
+		g.tolerantPiece(depth) // tolerated unknown identifiers inside bodies, with probes after them in the same statement
+		return
 	}
 	if g.o.splitTags && g.inFn == 0 && g.pct("multistmt", 6) {
 		g.multiStmtTagPiece(depth)
@@ -1760,6 +1764,26 @@ func (g *gen) noisePiece() {
 func (g *gen) tolerantPiece(depth int) {
 	g.feat("tolerant")
 	g.frames = 0
+	if g.o.toleratedOnly && g.o.probes && g.inFn == 0 && g.pct("tolthroughfn", 25) {
+		// the unknown identifier is RETURNED by a user function and meets the tolerant frame at the call (plush
+		// tolerates that too today; whether it must is not decided here — what is checked is what comes after it in
+		// the same statement: later failures must still name their own tag)
+		g.feat("tolerant_through_user_function")
+		f := g.fresh("tf")
+		g.tag("<%", "let "+f+" = fn() { return zz }", "%>")
+		g.nl()
+		switch g.intn("tolfn", 0, 2) {
+		case 0:
+			g.tag("<%=", "if ("+f+"()) {", "%>")
+			g.cur.write("*")
+			g.tag("<%", "}", "%>")
+		case 1:
+			g.tag("<%", "let "+g.fresh("tv")+" = !"+f+"()", "%>")
+		default:
+			g.tag("<%=", f+"() == nil", "%>")
+		}
+		return
+	}
 	if g.nest > 0 || g.o.toleratedOnly || g.pct("tolerated", 50) {
 		c := g.intn("tol", 0, 7)
 		var cls, body string
